@@ -16,6 +16,8 @@ use rand::rngs::StdRng;
 use rand::Rng;
 use serde_json::{json, Value};
 use smartcore::linalg::naive::dense_matrix::DenseMatrix;
+#[allow(unused_imports)]
+use smartcore::linalg::Matrix;
 use smartcore::math::distance::mahalanobis::Mahalanobis;
 use smartcore::math::distance::{Distance, Distances};
 use vutil::*;
@@ -58,7 +60,7 @@ fn no_result() -> Value {
 // ---------------------------------------------------------------------------- calls
 
 macro_rules! dist_impl {
-    ($fname:ident, $mname:ident, $t:ty) => {
+    ($fname:ident, $t:ty) => {
         /// one call of the public API; integer inputs multiplied by 2^e (exact)
         fn $fname(kind: &str, p: u16, a: &[i64], b: &[i64], e: i32) -> f64 {
             let s = 2f64.powi(e);
@@ -78,26 +80,10 @@ macro_rules! dist_impl {
             };
             r as f64
         }
-
-        /// Mahalanobis object from an integer covariance (entries * 4^e) or from integer
-        /// data rows (entries * 2^e)
-        fn $mname(mode: &str, mat: &[Vec<i64>], e: i32) -> Mahalanobis<$t, DenseMatrix<$t>> {
-            let s = if mode == "cov" { 4f64.powi(e) } else { 2f64.powi(e) };
-            let rows: Vec<Vec<$t>> = mat
-                .iter()
-                .map(|r| r.iter().map(|&v| (v as f64 * s) as $t).collect())
-                .collect();
-            let m = DenseMatrix::from_2d_vec(&rows);
-            if mode == "cov" {
-                Mahalanobis::new_from_covariance(&m)
-            } else {
-                Distances::mahalanobis(&m)
-            }
-        }
     };
 }
-dist_impl!(dist64, maha64, f64);
-dist_impl!(dist32, maha32, f32);
+dist_impl!(dist64, f64);
+dist_impl!(dist32, f32);
 
 fn dist(prec: u32, kind: &str, p: u16, a: &[i64], b: &[i64], e: i32) -> Result<f64, String> {
     guard(|| {
@@ -109,35 +95,60 @@ fn dist(prec: u32, kind: &str, p: u16, a: &[i64], b: &[i64], e: i32) -> Result<f
     })
 }
 
-enum Maha {
-    D(Mahalanobis<f64, DenseMatrix<f64>>),
-    S(Mahalanobis<f32, DenseMatrix<f32>>),
-}
+/// A constructed Mahalanobis object of one float type on one matrix back end, reduced to
+/// its `distance` function (integer vectors times 2^e in, the returned float widened to f64 out).
+type Maha = Box<dyn Fn(&[i64], &[i64], i32) -> f64>;
 
-fn maha_new(prec: u32, mode: &str, mat: &[Vec<i64>], e: i32) -> Result<Maha, String> {
-    guard(|| {
-        if prec == 52 {
-            Maha::D(maha64(mode, mat, e))
-        } else {
-            Maha::S(maha32(mode, mat, e))
+pub const BACKENDS: [&str; 4] = ["dense", "ndarray", "ndarray-f", "nalgebra"];
+
+macro_rules! maha_impl {
+    ($fname:ident, $t:ty) => {
+        /// covariance (entries * 4^e) or data rows (entries * 2^e) on the given back end:
+        /// smartcore's DenseMatrix, ndarray (row-major / column-major layout), nalgebra
+        fn $fname(backend: &str, mode: &str, mat: &[Vec<i64>], e: i32) -> Maha {
+            let s = if mode == "cov" { 4f64.powi(e) } else { 2f64.powi(e) };
+            let (nr, nc) = (mat.len(), mat[0].len());
+            let rows: Vec<Vec<$t>> = mat.iter().map(|r| r.iter().map(|&v| (v as f64 * s) as $t).collect()).collect();
+            let flat: Vec<$t> = rows.iter().flatten().cloned().collect();
+            macro_rules! finish {
+                ($m:expr) => {{
+                    let m = $m;
+                    let d = if mode == "cov" { Mahalanobis::new_from_covariance(&m) } else { Distances::mahalanobis(&m) };
+                    Box::new(move |a: &[i64], b: &[i64], e: i32| -> f64 {
+                        let s = 2f64.powi(e);
+                        let av: Vec<$t> = a.iter().map(|&v| (v as f64 * s) as $t).collect();
+                        let bv: Vec<$t> = b.iter().map(|&v| (v as f64 * s) as $t).collect();
+                        d.distance(&av, &bv) as f64
+                    }) as Maha
+                }};
+            }
+            match backend {
+                "dense" => finish!(DenseMatrix::from_2d_vec(&rows)),
+                "ndarray" => finish!(ndarray::Array2::<$t>::from_shape_vec((nr, nc), flat).unwrap()),
+                "ndarray-f" => {
+                    // same logical matrix stored column-major
+                    let mut colmajor: Vec<$t> = Vec::with_capacity(nr * nc);
+                    for j in 0..nc {
+                        for i in 0..nr {
+                            colmajor.push(rows[i][j]);
+                        }
+                    }
+                    finish!(ndarray::Array2::<$t>::from_shape_vec((nc, nr), colmajor).unwrap().reversed_axes())
+                }
+                _ => finish!(nalgebra::DMatrix::<$t>::from_row_slice(nr, nc, &flat)),
+            }
         }
-    })
+    };
+}
+maha_impl!(maha_obj64, f64);
+maha_impl!(maha_obj32, f32);
+
+fn maha_new(prec: u32, backend: &str, mode: &str, mat: &[Vec<i64>], e: i32) -> Result<Maha, String> {
+    guard(|| if prec == 52 { maha_obj64(backend, mode, mat, e) } else { maha_obj32(backend, mode, mat, e) })
 }
 
 fn maha_dist(m: &Maha, a: &[i64], b: &[i64], e: i32) -> Result<f64, String> {
-    let s = 2f64.powi(e);
-    guard(|| match m {
-        Maha::D(d) => {
-            let av: Vec<f64> = a.iter().map(|&v| v as f64 * s).collect();
-            let bv: Vec<f64> = b.iter().map(|&v| v as f64 * s).collect();
-            d.distance(&av, &bv)
-        }
-        Maha::S(d) => {
-            let av: Vec<f32> = a.iter().map(|&v| (v as f64 * s) as f32).collect();
-            let bv: Vec<f32> = b.iter().map(|&v| (v as f64 * s) as f32).collect();
-            d.distance(&av, &bv) as f64
-        }
-    })
+    guard(|| m(a, b, e))
 }
 
 // ---------------------------------------------------------------------------- scales
@@ -246,13 +257,24 @@ fn mismatch_event(run: i64, kind: &str, p: u16, prec: u32, x: &[i64], y: &[i64])
 }
 
 const MAHA_S: u32 = 10;
-const MAHA_T: u32 = 8;
+
+/// scale of the squared distance: smaller for orders 4 and 5, whose exact numerators are larger
+fn maha_t(order: usize) -> u32 {
+    if order <= 3 { 8 } else { 4 }
+}
 
 fn maha_event(run: i64, mode: &str, mat: &[Vec<i64>], prec: u32, e: i32, x: &[i64], y: &[i64], z: &[i64]) -> Value {
-    let mut ev = json!({"run": run, "ev": "Maha", "mode": mode, "mat": mat, "prec": prec, "e": e,
+    maha_event_on(run, "dense", mode, mat, prec, e, x, y, z)
+}
+
+#[allow(clippy::too_many_arguments)]
+fn maha_event_on(run: i64, backend: &str, mode: &str, mat: &[Vec<i64>], prec: u32, e: i32, x: &[i64], y: &[i64], z: &[i64]) -> Value {
+    #[allow(non_snake_case)]
+    let MAHA_T = maha_t(mat[0].len());
+    let mut ev = json!({"run": run, "ev": "Maha", "backend": backend, "mode": mode, "mat": mat, "prec": prec, "e": e,
                         "S": MAHA_S, "T": MAHA_T, "x": x, "y": y, "z": z});
     let names = ["xy", "yx", "xx", "yz", "xz"];
-    let m = match maha_new(prec, mode, mat, e) {
+    let m = match maha_new(prec, backend, mode, mat, e) {
         Ok(m) => m,
         Err(_) => {
             for n in names.iter() {
@@ -287,7 +309,7 @@ fn maha_event(run: i64, mode: &str, mat: &[Vec<i64>], prec: u32, e: i32, x: &[i6
 }
 
 fn maha_mismatch_event(run: i64, mat: &[Vec<i64>], prec: u32, x: &[i64], y: &[i64]) -> Value {
-    let status = match maha_new(prec, "cov", mat, 0) {
+    let status = match maha_new(prec, "dense", "cov", mat, 0) {
         Err(_) => "ctor-panic",
         Ok(m) => match maha_dist(&m, x, y, 0) {
             Ok(_) => "ok",
@@ -655,6 +677,190 @@ fn gen_maha(g: &mut Gen, r: &mut StdRng, th: bool) {
     }
 }
 
+/// Size ladder: vector lengths around the powers of two 64..1024 (block sizes, recursion
+/// thresholds of summation schemes), a few odd composites and two lengths in the thousands,
+/// for every distance kind, dense random differences (every coordinate contributes), f64
+/// and f32.  The closed forms stay O(n) for TLC.
+const LADDER: [usize; 21] = [63, 64, 65, 101, 127, 128, 129, 130, 255, 256, 257, 511, 512, 513, 785, 1023, 1024, 1025, 2049, 3000, 4097];
+
+fn gen_ladder(g: &mut Gen, r: &mut StdRng, th: bool) {
+    for (li, &len) in LADDER.iter().enumerate() {
+        // thorough: every kind (the structurally different ones for the longest vectors);
+        // quick: Euclidean and Manhattan at every length, the other kinds in rotation
+        let rot: [(&str, u16); 6] = [("mink", 3), ("ham", 0), ("mink", 2), ("hami", 0), ("mink", 7), ("mink", 1)];
+        if !th && (len == 2049 || len == 3000) {
+            continue;
+        }
+        let kinds: Vec<(&str, u16)> = if !th && len > 1100 {
+            vec![("euc", 0), ("man", 0)]
+        } else if !th {
+            vec![("euc", 0), ("man", 0), rot[li % 6]]
+        } else if len > 1100 {
+            vec![("man", 0), ("euc", 0), ("mink", 3), ("ham", 0)]
+        } else {
+            KINDS.to_vec()
+        };
+        for &(kind, p) in kinds.iter() {
+            let pp = power_of(kind, p);
+            let ham = kind == "ham" || kind == "hami";
+            // bound M on |component| with len * (2M)^pp < 2^29
+            let mut m: i64 = 400;
+            if ham {
+                m = 2;
+            } else {
+                loop {
+                    let mut b: i128 = len as i128;
+                    for _ in 0..pp {
+                        b = b.saturating_mul(2 * m as i128);
+                    }
+                    if b < (1 << 29) || m == 1 {
+                        break;
+                    }
+                    m = ((m * 3) / 4).max(1);
+                }
+            }
+            let reps = if th { 3 } else { 1 };
+            for rep in 0..reps {
+                let x = rvec(r, len, m);
+                // every coordinate differs (dense), or only a handful do (sparse): a scheme that
+                // loses one coordinate must lose a difference that matters either way
+                let y: Vec<i64> = if rep % 2 == 0 || ham {
+                    x.iter().map(|&v| if v >= 0 { v - r.gen_range(1..=m) } else { v + r.gen_range(1..=m) }).collect()
+                } else {
+                    x.iter().map(|&v| if r.gen_bool(0.05) { -v + 1 } else { v }).collect()
+                };
+                let z = rvec(r, len, m);
+                for &prec in [52u32, 23].iter() {
+                    if !th && prec == 23 && (li + kind.len()) % 3 != 0 {
+                        continue; // quick: f32 for a third of the cases
+                    }
+                    let lg = 64 - (2 * m as u64 + 1).leading_zeros() as i32;
+                    let emax = if prec == 52 { (900 / pp as i32 - lg).clamp(0, 60) } else { (100 / pp as i32 - lg).clamp(0, 8) };
+                    let e = if (li + rep) % 2 == 0 || emax == 0 { 0 } else { r.gen_range(-emax..=emax) };
+                    g.one(kind, p, prec, e, &x, &y, &z);
+                }
+            }
+        }
+    }
+    // single differing coordinate at every position of a vector just above a block size:
+    // Euclidean / Manhattan / Hamming must see it wherever it is
+    for &len in [65usize, 129].iter() {
+        let step = if th { 1 } else { 8 };
+        for pos in (0..len).step_by(step).chain(std::iter::once(len / 2)) {
+            let x = rvec(r, len, 50);
+            let mut y = x.clone();
+            y[pos] += 7;
+            let z = x.clone();
+            for &(kind, p) in [("euc", 0u16), ("man", 0), ("ham", 0), ("mink", 3)].iter() {
+                g.one(kind, p, 52, 0, &x, &y, &z);
+            }
+        }
+    }
+}
+
+fn mat_mul_t(a: &[Vec<i64>], d: &[i64]) -> Vec<Vec<i64>> {
+    // A diag(d) A^T
+    let n = a.len();
+    (0..n).map(|i| (0..n).map(|j| (0..n).map(|k| a[i][k] * d[k] * a[j][k]).sum()).collect()).collect()
+}
+
+/// unit lower triangular integer matrix number `code` in base `base`, entries lo..lo+base-1
+fn unit_lower(n: usize, mut code: usize, base: usize, lo: i64) -> Vec<Vec<i64>> {
+    let mut a = vec![vec![0i64; n]; n];
+    for i in 0..n {
+        a[i][i] = 1;
+        for j in 0..i {
+            a[i][j] = lo + (code % base) as i64;
+            code /= base;
+        }
+    }
+    a
+}
+
+/// Structured positive-definite families (orders 3..5): Sigma = A D A^T with A integer unit
+/// lower triangular and D a positive integer diagonal -- the covariance of integer linear
+/// combinations of uncorrelated factors.  Their Schur complements are small exact integers,
+/// so Gaussian elimination with row interchanges meets exact zeros, ties and negative
+/// candidates below the diagonal.  The same family built from data: two-level factorial
+/// designs with a centre point whose columns are A-combinations of the factor columns.
+fn gen_maha_structured(g: &mut Gen, r: &mut StdRng, th: bool) {
+    let dsets3: [[i64; 3]; 4] = [[1, 1, 1], [2, 1, 1], [1, 1, 2], [1, 3, 1]];
+    let vec_for = |r: &mut StdRng, n: usize| -> Vec<i64> { rvec(r, n, if n <= 3 { 2 } else { 1 }) };
+    // order 3: every A with entries in 0..2 (27) and in -2..2 (125, sampled in quick), four diagonals
+    for (base, lo) in [(3usize, 0i64), (5, -2)].iter() {
+        let total = base.pow(3);
+        for code in 0..total {
+            if *base == 5 && !th && code % 3 != 0 {
+                continue;
+            }
+            let a = unit_lower(3, code, *base, *lo);
+            for (di, d) in dsets3.iter().enumerate() {
+                if !th && *base == 5 && di != code % 4 {
+                    continue;
+                }
+                let mat = mat_mul_t(&a, d);
+                let prec = if (code + di) % 4 == 3 { 23 } else { 52 };
+                g.run += 1;
+                let ev = maha_event(g.run, "cov", &mat, prec, maha_scale(r, prec), &vec_for(r, 3), &vec_for(r, 3), &vec_for(r, 3));
+                g.out.emit(ev);
+            }
+        }
+    }
+    // orders 4 and 5: sampled A with entries in 0..2 (and a few with negative entries), D in {1,2}
+    for &(n, cnt) in [(4usize, if th { 1500 } else { 140 }), (5usize, if th { 600 } else { 50 })].iter() {
+        for i in 0..cnt {
+            let (base, lo) = if i % 4 == 3 { (4usize, -1i64) } else { (3usize, 0i64) };
+            let a = unit_lower(n, r.gen_range(0..base.pow((n * (n - 1) / 2) as u32)), base, lo);
+            let d: Vec<i64> = (0..n).map(|_| if r.gen_bool(0.7) { 1 } else { 2 }).collect();
+            let mat = mat_mul_t(&a, &d);
+            let prec = if i % 5 == 4 { 23 } else { 52 };
+            g.run += 1;
+            let ev = maha_event(g.run, "cov", &mat, prec, maha_scale(r, prec), &vec_for(r, n), &vec_for(r, n), &vec_for(r, n));
+            g.out.emit(ev);
+        }
+    }
+    // designed experiments: 2^k factorial (+-1) plus centre point, columns = A * factors
+    for &(k, cnt) in [(3usize, if th { 27 } else { 27 }), (4usize, if th { 300 } else { 40 }), (5usize, if th { 120 } else { 12 })].iter() {
+        for i in 0..cnt {
+            let code = if k == 3 { i } else { r.gen_range(0..3usize.pow((k * (k - 1) / 2) as u32)) };
+            let a = unit_lower(k, code, 3, 0);
+            let mut data: Vec<Vec<i64>> = Vec::new();
+            for run in 0..(1usize << k) {
+                let s: Vec<i64> = (0..k).map(|f| if (run >> f) & 1 == 1 { 1 } else { -1 }).collect();
+                data.push((0..k).map(|c| (0..k).map(|f| a[c][f] * s[f]).sum()).collect());
+            }
+            data.push(vec![0; k]);
+            let prec = if i % 5 == 4 { 23 } else { 52 };
+            g.run += 1;
+            let ev = maha_event(g.run, "data", &data, prec, maha_scale(r, prec), &vec_for(r, k), &vec_for(r, k), &vec_for(r, k));
+            g.out.emit(ev);
+        }
+    }
+}
+
+/// a sample of the Mahalanobis families on the other matrix back ends (ndarray row-major and
+/// column-major, nalgebra): covariance estimation and LU inversion are back-end code
+fn gen_maha_backends(g: &mut Gen, r: &mut StdRng, th: bool) {
+    let cnt = if th { 1200 } else { 150 };
+    for i in 0..cnt {
+        let backend = BACKENDS[1 + i % 3];
+        let prec = if i % 4 == 3 { 23 } else { 52 };
+        let n = 2 + i % 3;
+        let (mode, mat): (&str, Vec<Vec<i64>>) = if i % 2 == 0 {
+            let a = unit_lower(n, r.gen_range(0..3usize.pow((n * (n - 1) / 2) as u32)), 3, 0);
+            let d: Vec<i64> = (0..n).map(|_| r.gen_range(1..=2)).collect();
+            ("cov", mat_mul_t(&a, &d))
+        } else {
+            let m = r.gen_range(n + 2..=n + 5);
+            ("data", (0..m).map(|_| (0..n).map(|_| r.gen_range(0..=3)).collect()).collect())
+        };
+        let v = |r: &mut StdRng| rvec(r, n, if n <= 3 { 2 } else { 1 });
+        g.run += 1;
+        let ev = maha_event_on(g.run, backend, mode, &mat, prec, maha_scale(r, prec), &v(r), &v(r), &v(r));
+        g.out.emit(ev);
+    }
+}
+
 /// spec -> impl: every line is an input enumerated by TLC from DistancesMC together with the
 /// interval [lo, hi] the design model admits for round(d * 2^S); the real code is run on
 /// the input and the observed value recorded next to the interval (compared by the trace spec).
@@ -694,8 +900,8 @@ fn rerun(g: &mut Gen, input: &str) {
                                               &ivec(&l["x"]), &ivec(&l["y"]))),
             "Maha" => {
                 let mat: Vec<Vec<i64>> = l["mat"].as_array().unwrap().iter().map(ivec).collect();
-                Some(maha_event(g.run, l["mode"].as_str().unwrap(), &mat, prec, l["e"].as_i64().unwrap() as i32,
-                                &ivec(&l["x"]), &ivec(&l["y"]), &ivec(&l["z"])))
+                Some(maha_event_on(g.run, l["backend"].as_str().unwrap_or("dense"), l["mode"].as_str().unwrap(), &mat, prec,
+                                   l["e"].as_i64().unwrap() as i32, &ivec(&l["x"]), &ivec(&l["y"]), &ivec(&l["z"])))
             }
             "MahaMismatch" => {
                 let mat: Vec<Vec<i64>> = l["mat"].as_array().unwrap().iter().map(ivec).collect();
@@ -736,6 +942,9 @@ fn main() {
         "gen-random" => gen_random(&mut g, &mut r, th),
         "gen-mismatch" => gen_mismatch(&mut g, &mut r, th),
         "gen-maha" => gen_maha(&mut g, &mut r, th),
+        "gen-ladder" => gen_ladder(&mut g, &mut r, th),
+        "gen-maha-structured" => gen_maha_structured(&mut g, &mut r, th),
+        "gen-maha-backends" => gen_maha_backends(&mut g, &mut r, th),
         "replay-spec" => replay_spec(&mut g, arg(args, 2)),
         "rerun" => rerun(&mut g, arg(args, 2)),
         _ => {
